@@ -31,15 +31,33 @@ var marks = []int64{1, 2, 3, 4, 9}
 // a timer entry for a one-byte key is 12 bytes.
 var cacheTimers = []int{0, 1, 2, 3, 1000}
 
+// Abstract stamps are mapped to instants on one of two scales: whole seconds from the epoch, or
+// single nanoseconds from an instant in 2023 with an odd nanosecond part (all stamps of a run then
+// lie within two microseconds of each other, the way watermarks "one nanosecond behind" an event do).
+type scale struct {
+	base time.Time
+	unit time.Duration
+	name string
+}
+
+var scales = []scale{
+	{time.Unix(0, 0), time.Second, "seconds from the epoch"},
+	{time.Unix(1700000000, 123456789), time.Nanosecond, "nanoseconds from 2023-11-14T22:13:20.123456789Z"},
+}
+
+func (s scale) at(n int64) time.Time   { return s.base.Add(time.Duration(n) * s.unit) }
+func (s scale) of(t time.Time) int64   { return int64(t.Sub(s.base) / s.unit) }
+func (s scale) exact(t time.Time) bool { return s.at(s.of(t)).Equal(t) }
+
 type timer struct {
 	key string
 	t   int64
 }
 
 func Run(k *report.Check) {
-	k.Rule = "every sequence up to the depth over SetTimer(key in {a,b,c}, t in {1,2,3,5}) (repeats allowed), AdvanceWatermark(upstream, w in {1,2,3,4,9}, non-decreasing per upstream) and checkpoint+restore, with 1 or 2 upstreams, an operator range starting at key group 0 or 1, subject keys in two key groups (two of them share one) and per-key-group cache capacity of 0, 1, 2, 3 or unlimited timers; the real TimerRegistry/TimerStore over a real dkv.DB are compared with a set of pending (key,t) pairs: each advance must yield exactly the pending timers with t <= min(upstream watermarks), once, in non-decreasing t. States (pending set, upstream watermarks, cache contents and completeness flag per key group) are deduplicated. non-trivial = distinct states in which some pending timer is held only in the database (evicted or not yet loaded)"
+	k.Rule = "every sequence up to the depth over SetTimer(key in {a,b,c}, t in {1,2,3,5}) (repeats allowed), AdvanceWatermark(upstream, w in {1,2,3,4,9}, non-decreasing per upstream) and checkpoint+restore, with 1 or 2 upstreams, an operator range starting at key group 0 or 1, abstract stamps mapped to whole seconds from the epoch or to single nanoseconds around an instant with an odd nanosecond part (fired timestamps must be exactly instants that were set), subject keys in two key groups (two of them share one) and per-key-group cache capacity of 0, 1, 2, 3 or unlimited timers; the real TimerRegistry/TimerStore over a real dkv.DB are compared with a set of pending (key,t) pairs: each advance must yield exactly the pending timers with t <= min(upstream watermarks), once, in non-decreasing t. States (pending set, upstream watermarks, cache contents and completeness flag per key group) are deduplicated. non-trivial = distinct states in which some pending timer is held only in the database (evicted or not yet loaded)"
 	k.Assumptions = []string{"watermarks of one upstream do not decrease (C11); timestamps at or after the epoch", "the database itself is C07/C08's subject: a large memtable keeps it out of the picture here"}
-	k.Budget(100, 900)
+	k.Budget(300, 1200)
 	p := params{depth: k.Pick(5, 7)}
 	k.Explore(fmt.Sprintf("timers/d=%d", p.depth), mc.Config{}, p, body)
 }
@@ -75,6 +93,7 @@ type world struct {
 	nextCk  uint64
 	gen     int
 	lo      int // first key group of the operator's range
+	sc      scale
 }
 
 func (w *world) open(handles []recovery.CheckpointHandle) {
@@ -100,7 +119,7 @@ func (w *world) stateKey() string {
 	for _, u := range w.ups {
 		ws = append(ws, fmt.Sprint(w.wm[u]))
 	}
-	return fmt.Sprint(w.cache, w.lo, ps, ws, w.eff, w.store.VerifDump())
+	return fmt.Sprint(w.cache, w.lo, w.sc.name, ps, ws, w.eff, w.store.VerifDump())
 }
 
 func body(c *mc.Ctx) {
@@ -115,7 +134,8 @@ func body(c *mc.Ctx) {
 		w.lo = 1
 	}
 	w.cache = uint64((groups - w.lo) * (ct*12 + 1))
-	c.Op("[upstreams=%d cache=%d timers/group, key groups %d..%d]", nups, ct, w.lo, groups-1)
+	w.sc = scales[c.Choose(len(scales))]
+	c.Op("[upstreams=%d cache=%d timers/group, key groups %d..%d, stamps in %s]", nups, ct, w.lo, groups-1, w.sc.name)
 	w.open(nil)
 	for step := 0; step < p.depth; step++ {
 		if c.Fresh() && c.Seen(w.stateKey(), p.depth-step) {
@@ -131,7 +151,7 @@ func body(c *mc.Ctx) {
 		case op <= nSet:
 			key, t := subjects[(op-1)/len(stamps)], stamps[(op-1)%len(stamps)]
 			c.Op("SetTimer(%s,%d)", key, t)
-			w.reg.SetTimer([]byte(key), time.Unix(t, 0))
+			w.reg.SetTimer([]byte(key), w.sc.at(t))
 			if w.eff < 0 || t > w.eff {
 				w.pending[timer{key, t}] = true
 			}
@@ -148,8 +168,8 @@ func body(c *mc.Ctx) {
 				w.eff = min(w.eff, w.wm[u])
 			}
 			var got []timer
-			for key, ts := range w.reg.AdvanceWatermark(up, &workerpb.Watermark{Timestamp: timestamppb.New(time.Unix(mark, 0))}) {
-				got = append(got, timer{string(key), ts.Unix()})
+			for key, ts := range w.reg.AdvanceWatermark(up, &workerpb.Watermark{Timestamp: timestamppb.New(w.sc.at(mark))}) {
+				got = append(got, w.fired(key, ts))
 			}
 			var want []timer
 			for t := range w.pending {
@@ -185,8 +205,8 @@ func body(c *mc.Ctx) {
 	c.Op("Advance(all,1000)")
 	var got []timer
 	for _, u := range w.ups {
-		for key, ts := range w.reg.AdvanceWatermark(u, &workerpb.Watermark{Timestamp: timestamppb.New(time.Unix(1000, 0))}) {
-			got = append(got, timer{string(key), ts.Unix()})
+		for key, ts := range w.reg.AdvanceWatermark(u, &workerpb.Watermark{Timestamp: timestamppb.New(w.sc.at(1000))}) {
+			got = append(got, w.fired(key, ts))
 		}
 	}
 	var want []timer
@@ -194,6 +214,15 @@ func body(c *mc.Ctx) {
 		want = append(want, t)
 	}
 	w.compare(got, want)
+}
+
+// fired turns a fired timer into its abstract stamp; an instant that is not one of the scale's
+// (a truncated or shifted timestamp) is a failure of its own.
+func (w *world) fired(key []byte, ts time.Time) timer {
+	if !w.sc.exact(ts) {
+		w.c.FailSig("timer-timestamp-altered", "timer of key %q fired with timestamp %s, which no SetTimer call used (scale: %s)", key, ts.UTC().Format(time.RFC3339Nano), w.sc.name)
+	}
+	return timer{string(key), w.sc.of(ts)}
 }
 
 func (w *world) compare(got, want []timer) {
